@@ -146,8 +146,8 @@ func (p *Program) verifyFunc(name string, view string) *FuncResult {
 		}
 		// each postcondition is checked separately at every return site (no merged exit state in the VC)
 		for _, en := range ct.Ensures {
-			if ct.CheckCalls {
-				break // postconditions of a checkcalls contract stay assumed
+			if ct.CheckCalls && !en.Checked {
+				continue // postconditions of a checkcalls contract stay assumed, except its "proves" clauses
 			}
 			if en.Assumed || !e.inView(en) || (en.View == "" && !e.primary()) {
 				continue
